@@ -822,6 +822,10 @@ UNITS = [{
                 (S, 'is_exact(*self) ==> is_exact(r) || (*self is Rational && (!fits_i32(ipow(vnum(*self), exp as nat)) || !fits_i32(ipow(vden(*self), exp as nat))))'),
             ],
         },
+        # declared so that a change that calls them stays decidable
+        'impl Number::is_rational': {'props': ['C08', 'C09', 'C06'], 'ensures': [(S, 'r == is_exact(*self)')]},
+        'impl Number::is_real': {'props': ['C06'], 'ensures': [(S, 'r')]},
+        'impl Number::is_complex': {'props': ['C06'], 'ensures': [(S, 'r')]},
         'impl Number::is_integer': {
             'props': ['C08', 'C09', 'C06'],
             'ensures': [(S, 'is_exact(*self) ==> r == is_int(*self)')],
